@@ -92,6 +92,8 @@ pub const OPS: &[&str] = &[
     "(set! v1 v2)",
     "(set! c1 (g1))",
     "(set! u 1.0)",
+    // state-changing calls as operands of a derived form that must evaluate each at most once
+    "(or (c1) (c2))",
 ];
 
 /// destructive probes, run after the canonical state has been taken
